@@ -23,7 +23,7 @@ import mpservice.pipe as P
 from scen_frame import make_payload
 
 MODEL = 'pipe'
-HANG = 20.0
+HANG = 12.0
 
 
 def gen_case(rng, tier):
@@ -110,8 +110,10 @@ def run_case(case):
         ths = [threading.Thread(target=f, args=(r,), daemon=True) for r in ('s', 'c') for f in (sender, receiver)]
         for t in ths:
             t.start()
+        import time
+        deadline = time.time() + HANG
         for t in ths:
-            t.join(HANG)
+            t.join(max(0.05, deadline - time.time()))
         if any(t.is_alive() for t in ths):
             errs.append('a sender/receiver thread is still blocked after the hang bound')
         # framing of a real Connection on an OS pipe vs the model
@@ -166,5 +168,5 @@ def model_lines(cid, case, res):
             lines.append(f'a recv {r} {h}')
     for m, w in res['frames']:
         lines.append(f'frame {m} {w}')
-    lines.append('end')
+    lines.append(f'end quiet={int(not res["errors"] and not res["monitors"])}')
     return lines
